@@ -94,6 +94,16 @@ ENTRIES = {
 }
 
 def observe(cmd, args):
+    if cmd.startswith("v."):
+        import version_impl; return version_impl.observe(cmd, args)
+    if cmd.startswith("sp."):
+        import spec_impl; return spec_impl.observe(cmd, args)
+    if cmd.startswith("n."):
+        import names_impl; return names_impl.observe(cmd, args)
+    if cmd.startswith("f."):
+        import files_impl; return files_impl.observe(cmd, args)
+    if cmd.startswith("l."):
+        import lic_impl; return lic_impl.observe(cmd, args)
     if cmd == "law.exc":
         entry, s = args
         try:
